@@ -58,7 +58,8 @@ def run(rep, tier, replay):
         variants = [dict(W=1, env={}, mode="stdin", args=[])]
         for i in range(nvar):
             env = {"VERIF_SCHED_SEED": rng.randrange(1000)}
-            ig = rng.choice([32, 36, 64, 100, 4096, None])
+            # (one or two 32-bit words per input block suspend parser and retriever at every word; small files only)
+            ig = rng.choice(([4, 8] if len(data) < 3000 else []) + [32, 36, 64, 100, 4096, None])
             if ig:
                 env["VERIF_IN_GRANUL"] = ig
             og = rng.choice(([1, 2, 7] if small_out else []) + [4096, 65536, None])
